@@ -189,7 +189,10 @@ impl Generator {
 
             // PUT operations - need something to memoize (and not MARK)
             Put | BinPut | LongBinPut | Memoize => {
-                self.state.stack.len() >= 1
+                // BINPUT has a one-byte index: once 256 entries exist it would wrap
+                // around and re-define an index that is already in use
+                (opcode != BinPut || self.state.memo.len() < 256)
+                    && self.state.stack.len() >= 1
                     && self
                         .peek()
                         .is_some_and(|obj| !matches!(*obj.borrow(), StackObject::Mark))
